@@ -1,9 +1,27 @@
-import sys, time
+import sys, time, collections
 from vtlib import env
 from pyvc import registry as R
+from pyvc import interp
+import z3
+cnt = collections.Counter(); tim = collections.Counter()
+orig = interp.Engine._check
+def patched(self, *extra):
+    t0=time.time(); r = orig(self, *extra); dt=time.time()-t0
+    import traceback
+    fr = traceback.extract_stack(limit=4)
+    key = " <- ".join("%s:%d" % (f.name, f.lineno) for f in reversed(fr[:-1]))
+    cnt[key]+=1; tim[key]+=dt
+    return r
+interp.Engine._check = patched
 reg = R.build(); loader = R.make_loader()
 q = sys.argv[1]
-res = reg.lemmas[q].run(loader, reg) if q in reg.lemmas else __import__('pyvc.unit').unit.verify_unit(loader, reg.contracts[q], reg)
-for o in sorted(res.obligations, key=lambda o: -o.seconds)[:12]:
+from pyvc.unit import verify_unit
+res = reg.lemmas[q].run(loader, reg) if q in reg.lemmas else verify_unit(loader, reg.contracts[q], reg)
+for o in sorted(res.obligations, key=lambda o: -o.seconds)[:14]:
     print("%.2fs %s %s path=%s %s" % (o.seconds, o.status, o.name, o.path, o.detail[:100].replace("\n"," ")))
-print("total solver", res.solver_seconds, "paths", res.paths)
+print("total solver", res.solver_seconds, "paths", res.paths, "demoted", res.demoted, "error", res.error)
+for k,v in tim.most_common(12):
+    print("%.2fs %d  %s" % (v, cnt[k], k))
+print("sum obligation seconds %.2f over %d obligations" % (sum(o.seconds for o in res.obligations), len(res.obligations)))
+import collections as C
+print(C.Counter((o.status, o.backend) for o in res.obligations))
